@@ -292,6 +292,9 @@ func checkC08(ctx *Ctx, r *Report) {
 	c08CueConstraintSiblings(ctx, r)
 	c08TypeListThroughWalkers(ctx, r)
 	c08UnionReuseComparesBranches(ctx, r)
+	c10CueEmptyCollectionDefault(ctx, r)
+	c08CollapsedUnionKeepsConstraints(ctx, r)
+	c08StrictUnionBranches(ctx, r)
 }
 
 func checkC13(ctx *Ctx, r *Report) {
@@ -1483,4 +1486,86 @@ func c13HuntedRules(ctx *Ctx, r *Report, ts *tmplSet, branches []tmplBranch) {
 	}
 	r.Check(deepOK, "skeleton/equality-deepequal-at-reference", "type_equality_check DeepEqual branch: recursive collections", token.NoPos, "isRecursiveCollection selects the DeepEqual branch only for a reference",
 		file+": the reflect.DeepEqual branch is selected by isRecursiveCollection on any type, inline arrays and maps included: an optional `forest?: [...#Tree]` (omitempty) is compared with DeepEqual, which tells nil from empty — two values encoding to the same JSON are unequal; only the reference closing the loop needs DeepEqual")
+}
+
+// c08CollapsedUnionKeepsConstraints: DisjunctionToType replaces a union whose branches all resolve to one scalar
+// kind (`-1 | (int & >0)`, `"a" | string`) by one bare scalar of that kind. The branches can carry constraints and
+// constants: the scalar that replaces them has to receive them (in some form Validate() can check), or values that
+// no branch accepts pass validation. The rule: in the branch taken under hasOnlySingleTypeScalars, the constraints of
+// the branches are read.
+func c08CollapsedUnionKeepsConstraints(ctx *Ctx, r *Report) {
+	fn := ctx.LookupMethod("internal/ast/compiler", "DisjunctionToType", "processDisjunction")
+	fd, p := ctx.DeclOf(fn)
+	if fd == nil || fd.Body == nil {
+		r.Undecided("anchor lost: DisjunctionToType.processDisjunction")
+		return
+	}
+	info := p.TypesInfo
+	n := 0
+	ast.Inspect(fd.Body, func(m ast.Node) bool {
+		is, ok := m.(*ast.IfStmt)
+		if !ok {
+			return true
+		}
+		c, ok := ast.Unparen(is.Cond).(*ast.CallExpr)
+		if !ok {
+			return true
+		}
+		if f := callee(info, c); f == nil || f.Name() != "hasOnlySingleTypeScalars" {
+			return true
+		}
+		n++
+		reads := false
+		ast.Inspect(is.Body, func(q ast.Node) bool {
+			if sel, ok := q.(*ast.SelectorExpr); ok && sel.Sel.Name == "Constraints" {
+				reads = true
+			}
+			return true
+		})
+		r.Check(reads, "normalform/collapsed-union-keeps-constraints", "DisjunctionToType single-kind shortcut carries the branches' constraints", is.Pos(), "the constraints of the branches are read when the union is collapsed",
+			"a union whose branches all resolve to one scalar kind is replaced by a brand new bare scalar: the constraints and constants of the branches are dropped, `limit: -1 | (int & >0)` becomes `Limit int64` with no check at all — Validate() accepts -5 and 0, which no branch accepts")
+		return false
+	})
+	r.Count("single-kind shortcuts of DisjunctionToType", n)
+	r.Floor("single-kind shortcuts of DisjunctionToType", 1)
+}
+
+// c08StrictUnionBranches: the strict decoder of a union of "scalars" decodes branch by branch; a branch can be a list
+// or a map of objects, whose elements have strict decoders of their own. The template has to hand such a branch to
+// strict_unmarshal_field_type (which walks the elements) — json.Unmarshal accepts undeclared fields, missing required
+// fields and nulls inside them.
+func c08StrictUnionBranches(ctx *Ctx, r *Report) {
+	ts, err := loadTemplates(ctx, "golang")
+	if err != nil {
+		r.Undecided("templates of golang: %v", err)
+		return
+	}
+	name := "types/disjunction_of_scalars.strict.json_unmarshal.tmpl"
+	tree := ts.trees[name]
+	if tree == nil {
+		r.Undecided("anchor lost: golang template %s", name)
+		return
+	}
+	strict, underTest := false, false
+	walkTmpl(tree.Root, func(n parse.Node) bool {
+		in, ok := n.(*parse.IfNode)
+		if !ok {
+			return true
+		}
+		cond := in.Pipe.String()
+		if !(strings.Contains(cond, "resolvesToArrayOfScalars") || strings.Contains(cond, "resolvesToMapOfScalars")) {
+			return true
+		}
+		underTest = true
+		walkTmpl(in.List, func(q parse.Node) bool {
+			if tn, ok := q.(*parse.TemplateNode); ok && tn.Name == "strict_unmarshal_field_type" {
+				strict = true
+			}
+			return true
+		})
+		return true
+	})
+	r.Count("strict decoders of unions of scalars", 1)
+	r.Check(underTest && strict, "skeleton/strict-union-branches-strict", "golang disjunction_of_scalars strict decoder: lists and maps of objects", token.NoPos, ts.file[name]+": a branch that is a list or map of objects goes through strict_unmarshal_field_type",
+		ts.file[name]+": every branch of the union is decoded with json.Unmarshal: for `source: string | [...#Item]` the elements of the list are never checked — undeclared fields, missing required fields and nulls are accepted inside them, while the same faults in a plain `[...#Item]` are rejected")
 }
